@@ -156,7 +156,9 @@ def rule(r, kind, depth=0):
         return comment(r)
     if kind == "import":
         h = r.choice(["a.css", "b.css", "a b.css", "é.css"])
-        return "@import " + r.choice([css_url(r, h), css_string(r, h)]) + r.choice(["", " print", " screen, tv", " all", " print and (color)"]) + r.choice(["", "", ' "name"']) + ";"
+        # (comments in front of the href; a comment *behind* the href is read as part of the media query that follows
+        # it or is set later - the same comment in another place of the DOM: left out, see DESIGN 9.4)
+        return "@import " + r.choice(["", "", "/*c*/ ", "/*a*/ /*b*/ "]) + r.choice([css_url(r, h), css_string(r, h)]) + r.choice(["", " print", " screen, tv", " all", " print and (color)"]) + r.choice(["", "", ' "name"']) + ";"
     if kind == "namespace":
         return r.choice(['@namespace "u0";', '@namespace p "u1";', "@namespace q url(u2);", "@namespace p 'it''s';".replace("''", "\\'")])
     if kind == "unknown":
@@ -437,7 +439,10 @@ class World:
                     props = r.style.getProperties(all=True)
                     kk, v = lib.call(setattr, props[op["j"] % len(props)].propertyValue, "cssText", op["text"])
                 elif k == "media":
-                    kk, v = lib.call(setattr, r.media, "mediaText", op["text"])
+                    if op.get("whole") and r.typeString == "IMPORT_RULE":
+                        kk, v = lib.call(setattr, r, "media", op["text"])  # the list is replaced, not edited
+                    else:
+                        kk, v = lib.call(setattr, r.media, "mediaText", op["text"])
                 else:
                     kk, v = lib.call(setattr, r, "cssText", op["text"])
             elif k == "encoding":
@@ -519,7 +524,7 @@ def gen_op(r, w, i):
     if k == "setprop":
         return {"op": k, "i": r.randrange(0, 8), "name": r.choice(["color", "content", "x-y", "background"]), "text": " ".join(value(r) for _ in range(r.choice([1, 2]))), "prio": r.choice(["", "", "important"])}
     if k == "media":
-        return {"op": k, "i": r.randrange(0, 4), "text": G.media_list(r)}
+        return {"op": k, "i": r.randrange(0, 4), "text": G.media_list(r), "whole": r.random() < 0.3}
     if k == "value":
         return {"op": k, "i": r.randrange(0, 8), "j": r.randrange(0, 5), "text": " ".join(value(r) for _ in range(r.choice([1, 2, 3])))}
     if k == "ruletext":
